@@ -1,7 +1,142 @@
-(* Properties/C17.v — property theorems only; every proof is [exact <lemma>] (lemmas in Proofs/PolicyImports.v). *)
+(* Properties/C17.v — property theorems only; every proof is [exact <lemma>] (lemmas in Proofs/PolicyImports.v).
+   C17: "Unless allow_all_imports is set, every import statement form of a module that is neither on pyscript's
+   allow-list nor a pyscript module/app package fails with ModuleNotFoundError and binds nothing; allow-listed and
+   pyscript modules import normally, from-imports below 'stubs' are ignored, and with the option set everything
+   installed imports.  The builtins open, compile, input, breakpoint, memoryview and the real print are never
+   reachable as plain names, and print/log functions write to the script's logger."
+   [allowed_imports], [builtin_exclude], [ast_factory_funcs], [logger_funcs] are Gen/ImportConsts.v, regenerated
+   from the current source on every run; [m], [a], [names] range over ALL strings / aliases / alias lists. *)
 From Coq Require Import String.
 From PV Require Import Common.Util Gen.ImportConsts Policy.Imports Policy.ImportsCheck Proofs.PolicyImports.
+Local Open Scope string_scope.
 
-Theorem C17_mem : forall s l, str_mem s l = true <-> In s l.
-Proof. exact str_mem_In. Qed.
-Print Assumptions C17_mem.
+(* ---- denied: import a / import a.b / import a as x (a is any string, dotted or not) ---- *)
+Theorem C17_denied_import : forall (w : world) (a : alias),
+  w_allow_all w = false -> ~ In (al_name a) allowed_imports -> ps_lookup w (al_name a) 0 = PsNone ->
+  run_stmt w (SImport [a]) = res SDenied [] /\ status_exc SDenied = Some "ModuleNotFoundError".
+Proof. exact (fun w a H1 H2 H3 => conj (import_denied w a H1 H2 H3) eq_refl). Qed.
+Print Assumptions C17_denied_import.
+
+(* "not a pyscript module/app package", spelled out for absolute imports *)
+Theorem C17_not_pyscript_module_iff : forall (w : world) (m : string),
+  ps_lookup w m 0 = PsNone <->
+  forall c, In c (cands0 (w_rel w) m) -> assoc (fst c) (w_loaded w) = None /\ str_mem (snd c) (w_present w) = false.
+Proof. exact ps_lookup_none_iff. Qed.
+Print Assumptions C17_not_pyscript_module_iff.
+
+Theorem C17_denied_import_no_pyscript_files : forall (w : world) (a : alias),
+  w_allow_all w = false -> w_present w = [] -> w_loaded w = [] -> ~ In (al_name a) allowed_imports ->
+  run_stmt w (SImport [a]) = res SDenied [].
+Proof. exact import_denied_no_files. Qed.
+Print Assumptions C17_denied_import_no_pyscript_files.
+
+(* ---- denied: from a import b / from a.b import * / from a import b as c, d / relative levels ---- *)
+Theorem C17_denied_from : forall (w : world) (m : string) (level : N) (names : list alias),
+  w_allow_all w = false -> ~ In m allowed_imports -> is_stubs m = false -> ps_lookup w m level = PsNone ->
+  run_stmt w (SFrom (Some m) level names) = res SDenied [].
+Proof. exact from_denied. Qed.
+Print Assumptions C17_denied_from.
+
+(* ---- denied inside a multi-module import: what precedes is bound (as in Python), the denied one and the rest are not ---- *)
+Theorem C17_denied_import_at : forall (w : world) (pre : list alias) (a : alias) (post : list alias),
+  w_allow_all w = false ->
+  (forall x, In x pre -> In (al_name x) allowed_imports /\ ps_lookup w (al_name x) 0 = PsNone /\ sys_importable w (al_name x)) ->
+  ~ In (al_name a) allowed_imports -> ps_lookup w (al_name a) 0 = PsNone ->
+  run_stmt w (SImport (pre ++ a :: post)) = res SDenied (map (fun x => (bind_name x, OSys (al_name x))) pre).
+Proof. exact import_denied_at. Qed.
+Print Assumptions C17_denied_import_at.
+
+(* ---- the check is exactly membership in the regenerated set (a prefix/substring/case-folding test is not) ---- *)
+Theorem C17_check_is_membership : forall m : string, decide false false m = VSystem <-> In m allowed_imports.
+Proof. exact decide_system_iff. Qed.
+Print Assumptions C17_check_is_membership.
+
+(* ---- safety, for EVERY statement and EVERY world: no value of an installed module outside the allow-list is bound ---- *)
+Theorem C17_safety : forall (w : world) (s : stmt) (n m : string),
+  w_allow_all w = false -> In (n, OSys m) (r_bound (run_stmt w s)) -> In m allowed_imports.
+Proof. exact safety. Qed.
+Print Assumptions C17_safety.
+
+(* ---- the same statement through exec()/eval(exec())/exec(src, dict)/a function runs the same check ---- *)
+Theorem C17_via_exec_same : forall (v : via) (w : world) (s : stmt), v <> VEvalRaw -> run_via v w s = run_stmt w s.
+Proof. exact via_same. Qed.
+Print Assumptions C17_via_exec_same.
+
+(* ---- allow-listed modules import normally; with the option set every installed module does ---- *)
+Theorem C17_allowed : forall (w : world) (a : alias),
+  In (al_name a) allowed_imports -> ps_lookup w (al_name a) 0 = PsNone -> sys_importable w (al_name a) ->
+  run_stmt w (SImport [a]) = res SOk [(bind_name a, OSys (al_name a))].
+Proof. exact (fun w a H => import_permitted w a (or_intror H)). Qed.
+Print Assumptions C17_allowed.
+
+Theorem C17_allowed_from : forall (w : world) (m : string) (level : N) (si : sysinfo) (names : list alias),
+  In m allowed_imports -> is_stubs m = false -> ps_lookup w m level = PsNone ->
+  assoc m (w_sys w) = Some si -> si_importable si = true ->
+  (forall a, In a names -> al_name a <> "*" /\ In (al_name a) (si_has si)) ->
+  run_stmt w (SFrom (Some m) level names) = res SOk (map (fun a => (bind_name a, OSys m)) names).
+Proof. exact (fun w m level si names H => from_permitted w m level si names (or_intror H)). Qed.
+Print Assumptions C17_allowed_from.
+
+Theorem C17_allow_all : forall (w : world) (a : alias),
+  w_allow_all w = true -> ps_lookup w (al_name a) 0 = PsNone -> sys_importable w (al_name a) ->
+  run_stmt w (SImport [a]) = res SOk [(bind_name a, OSys (al_name a))].
+Proof. exact (fun w a H => import_permitted w a (or_introl H)). Qed.
+Print Assumptions C17_allow_all.
+
+Theorem C17_allow_all_from_star : forall (w : world) (m : string) (level : N) (si : sysinfo),
+  w_allow_all w = true -> is_stubs m = false -> ps_lookup w m level = PsNone ->
+  assoc m (w_sys w) = Some si -> si_importable si = true ->
+  run_stmt w (SFrom (Some m) level [{| al_name := "*"; al_as := None |}]) = res SOk (map (fun n => (n, OSys m)) (si_public si)).
+Proof. exact (fun w m level si H => from_permitted_star w m level si (or_introl H)). Qed.
+Print Assumptions C17_allow_all_from_star.
+
+(* ---- pyscript modules/apps: the lookup precedes the check, whatever the lists and the option say ---- *)
+Theorem C17_pyscript_first : forall (w : world) (a : alias) (cn f : string) (fresh : bool),
+  ps_lookup w (al_name a) 0 = PsHit cn f fresh -> run_stmt w (SImport [a]) = res SOk [(bind_name a, OPs f)].
+Proof. exact import_pyscript_first. Qed.
+Print Assumptions C17_pyscript_first.
+
+(* ---- from-imports below stubs are ignored ---- *)
+Theorem C17_stubs_ignored : forall (w : world) (m : string) (level : N) (names : list alias),
+  is_stubs m = true -> (forall a, In a names -> al_as a = None) ->
+  run_stmt w (SFrom (Some m) level names) = res SIgnored [].
+Proof. exact stubs_ignored. Qed.
+Print Assumptions C17_stubs_ignored.
+
+(* ---- builtins: excluded and underscore names never denote the real builtin, whatever the scope binds ---- *)
+Theorem C17_builtins : forall (e : nenv) (n : string),
+  In n builtin_exclude \/ starts_underscore n = true -> name_lookup e n <> KBuiltin.
+Proof. exact builtins_excluded. Qed.
+Print Assumptions C17_builtins.
+
+(* the six names of the property statement, against the regenerated exclusion set *)
+Theorem C17_six_names : forall (e : nenv) (n : string),
+  In n ["open"; "compile"; "input"; "breakpoint"; "memoryview"; "print"] -> name_lookup e n <> KBuiltin.
+Proof. exact six_never_builtin. Qed.
+Print Assumptions C17_six_names.
+
+(* eval/exec/globals/locals are pyscript's own evaluators (which run the same import check), never the builtins *)
+Theorem C17_eval_exec_wrapped : forall (e : nenv) (n : string),
+  In n ["eval"; "exec"; "globals"; "locals"] -> name_lookup e n <> KBuiltin.
+Proof. exact eval_exec_never_builtin. Qed.
+Print Assumptions C17_eval_exec_wrapped.
+
+(* print and log.* are methods of the script's logger *)
+Theorem C17_print_logs : forall e : nenv, ne_sym e = false -> exists lvl, name_lookup e "print" = KLogger lvl.
+Proof. exact print_is_logger. Qed.
+Print Assumptions C17_print_logs.
+
+Theorem C17_log_functions : forall (e : nenv) (n lvl : string),
+  ne_sym e = false -> In (n, lvl) [("log.debug", "debug"); ("log.info", "info"); ("log.warning", "warning"); ("log.error", "error")] ->
+  name_lookup e n = KLogger lvl.
+Proof. exact log_funcs_are_loggers. Qed.
+Print Assumptions C17_log_functions.
+
+(* ---- Model |= Spec on the functions the correspondence evaluates ---- *)
+Theorem C17_model_safety : forall c : icase, icase_model_ok c = true -> spec_safety c = true.
+Proof. exact icase_model_safety. Qed.
+Print Assumptions C17_model_safety.
+
+Theorem C17_names_model_implies_spec : forall c : ncase, ncase_model_ok c = true -> ncase_spec_ok c = true.
+Proof. exact ncase_model_implies_spec. Qed.
+Print Assumptions C17_names_model_implies_spec.
